@@ -281,8 +281,15 @@ for _pid in ("C08", "C11"):
     PROPS[_pid]["bounded"] = list(PROPS[_pid].get("bounded", [])) + ["checks.bounded_hooks:restr_filter"]
 
 PROPS["C11"].update(
-    modules=["contracts.c16", "contracts.node_edges"], technique=E1_TECHNIQUE,
-    explanation=PROPS["C11"]["explanation"] + " The step that applies a per-object restriction to a parsed test "
+    modules=["contracts.c16", "contracts.node_edges", "contracts.cmdline"], technique=E1_TECHNIQUE,
+    explanation=PROPS["C11"]["explanation"] + " Every branch of the tokenizing loop of params_from_cmd is under contract as an "
+                "extracted block (malformed argument rejected; only / no appended in order and the default escaped only by a "
+                "primary restriction; per-vm restriction appended to the first matching vm, unknown object rejected; nets "
+                "restriction vs explicit nets conflict in both orders; vms= selects exactly the listed vms, unknown vm rejected; "
+                "any other key=value recorded as override with commas as spaces), as are the loop that drops the strings of "
+                "unselected vms and the two default functions full_tests_params_and_str / full_vm_params_and_strs (default added "
+                "only when none given, overrides handed to the parser); regular expressions and the Cartesian parser are seams (E1). "
+                "The step that applies a per-object restriction to a parsed test "
                 "(TestNode.update_restrs, loop body extracted) is additionally proved: the restriction line is appended unless "
                 "exactly that line is already present, other objects' restrictions are untouched (E1); the only/no filters over "
                 "objects and nodes are compared with an independent matcher (bounded).")
